@@ -1350,3 +1350,128 @@ Proof.
     rewrite (scan_E_true v E3 _ _ true HE3). simpl. rewrite <- !app_assoc. simpl.
     destruct E3; reflexivity.
 Qed.
+
+(* the shape of a list of children read in the order of the frontier *)
+Definition RRun (v : nat) (L W1 Lp A Rp W3 : list item) : Prop :=
+  L = W1 ++ Lp ++ A ++ Rp ++ W3 /\
+  Forall (fun x => ist x = SEmpty) W1 /\ Forall (fun x => ist x = SEmpty) W3 /\ Forall (fun x => ist x = SFull) A /\
+  (Lp = [] \/ exists a, Lp = [a] /\ ist a = SPartA /\ zeros_ones (wd v a) = true) /\
+  (Rp = [] \/ exists b, Rp = [b] /\ ist b = SPartA /\ ones_zeros (wd v b) = true).
+
+Definition ROne (L W1 : list item) (x : item) (W3 : list item) : Prop :=
+  L = W1 ++ [x] ++ W3 /\ Forall (fun x => ist x = SEmpty) W1 /\ Forall (fun x => ist x = SEmpty) W3 /\
+  (ist x = SPartA \/ ist x = SPartU).
+
+Lemma rshape v L : Forall (GoodItem v) L -> Shape (wd v) L ->
+  (exists W1 Lp A Rp W3, RRun v L W1 Lp A Rp W3) \/ (exists W1 x W3, ROne L W1 x W3).
+Proof.
+  intros HG' Hshape. destruct Hshape as [l Haz|W1 w W3 H1 H3 Hc Hz|W1 w A R W3 H1 H3 HA Hzo Hz HR].
+  - left. exists l, [], [], [], []. pose proof (az_items v l HG' Haz) as HE.
+    split; [now rewrite !app_nil_r|]. repeat split; auto.
+  - assert (HGs : Forall (GoodItem v) W1 /\ GoodItem v w /\ Forall (GoodItem v) W3).
+    { apply Forall_app in HG'. destruct HG' as [Ha Hb]. inversion Hb; subst. auto. }
+    destruct HGs as (HG1 & HGw & HG3).
+    pose proof (az_items v W1 HG1 H1) as HE1. pose proof (az_items v W3 HG3 H3) as HE3.
+    pose proof (item_class v w HGw) as Cw. destruct (ist w) eqn:Ew.
+    + left. exists W1, [], [w], [], W3. split; [reflexivity|]. repeat split; auto.
+    + destruct Cw. congruence.
+    + right. exists W1, w, W3. repeat split; auto.
+    + right. exists W1, w, W3. repeat split; auto.
+  - assert (HGs : Forall (GoodItem v) W1 /\ GoodItem v w /\ Forall (GoodItem v) A /\ Forall (GoodItem v) R /\ Forall (GoodItem v) W3).
+    { apply Forall_app in HG'. destruct HG' as [Ha Hb]. inversion Hb as [|? ? Hw Hb']; subst.
+      apply Forall_app in Hb'. destruct Hb' as [Hb1 Hb2]. apply Forall_app in Hb2. destruct Hb2. auto. }
+    destruct HGs as (HG1 & HGw & HGA & HGR & HG3).
+    pose proof (az_items v W1 HG1 H1) as HE1. pose proof (az_items v W3 HG3 H3) as HE3.
+    pose proof (ao_items v A HGA HA) as HFA.
+    assert (HR' : R = [] \/ exists w', R = [w'] /\ ist w' = SPartA /\ ones_zeros (wd v w') = true).
+    { destruct HR as [->|(w' & -> & Ho & Hno & Hnz)]; [now left|]. right. exists w'. split; [reflexivity|].
+      inversion HGR as [|? ? HGw' _]; subst. pose proof (item_class v w' HGw') as Cw. split; [|exact Ho].
+      destruct (ist w') eqn:Ew; auto; try (destruct Cw; congruence).
+      exfalso. exact (U2_not_oz v w' HGw' Ew Ho). }
+    left. pose proof (item_class v w HGw) as Cw. destruct (ist w) eqn:Ew.
+    + exists W1, [], (w :: A), R, W3. split; [reflexivity|]. repeat split; auto.
+    + destruct Cw. congruence.
+    + exists W1, [w], A, R, W3. split; [reflexivity|]. repeat split; auto. right. exists w. auto.
+    + exfalso. exact (U2_not_zo v w HGw Ew Hzo).
+Qed.
+
+(* which branch Q.set_contiguous takes after the possible reversal *)
+Lemma q_body_when v cs seq :
+  let n := length cs in
+  let nF := count_st SFull seq in let nE := count_st SEmpty seq in
+  let nPA := count_st SPartA seq in let nPU := count_st SPartU seq in
+  nPA <= 2 -> (nPU = 0 \/ S nE = n) ->
+  (nF = n -> q_body v cs seq = Ok (Node KQ cs, SFull)) /\
+  (nF <> n -> nE = n -> q_body v cs seq = Ok (Node KQ cs, SEmpty)) /\
+  (nF <> n -> nE <> n -> nPU = 1 -> q_body v cs seq = Ok (Node KQ cs, SPartU)) /\
+  (nF <> n -> nE <> n -> nPU <> 1 -> nPA = 1 -> S nE = n ->
+     q_body v cs seq = Ok (Node KQ cs, if status_eqb (last seq SFull) SPartA then SPartA else SPartU)) /\
+  (nF <> n -> nE <> n -> nPU <> 1 -> ~ (nPA = 1 /\ S nE = n) ->
+     q_body v cs seq = match q_scan v (combine cs seq) [] false false with
+                       | Err e => Err e
+                       | Ok (new_children, sre) => Ok (Node KQ new_children, if sre then SPartU else SPartA)
+                       end).
+Proof.
+  intros n nF nE nPA nPU H1 H2. unfold q_body. fold n nF nE nPA nPU. cbv zeta.
+  assert (Eimp : impossible n nE nPA nPU = false).
+  { unfold impossible. apply orb_false_iff. split; [apply Nat.ltb_ge; lia|].
+    destruct H2 as [H2|H2]; [rewrite H2; reflexivity|]. apply andb_false_iff. right. apply negb_false_iff, Nat.eqb_eq. exact H2. }
+  rewrite Eimp. repeat split.
+  - intros E. apply Nat.eqb_eq in E. now rewrite E.
+  - intros E1 E2. apply Nat.eqb_neq in E1. apply Nat.eqb_eq in E2. now rewrite E1, E2.
+  - intros E1 E2 E3. apply Nat.eqb_neq in E1, E2. apply Nat.eqb_eq in E3. now rewrite E1, E2, E3.
+  - intros E1 E2 E3 E4 E5. apply Nat.eqb_neq in E1, E2, E3. apply Nat.eqb_eq in E4, E5. now rewrite E1, E2, E3, E4, E5.
+  - intros E1 E2 E3 E4. apply Nat.eqb_neq in E1, E2, E3. rewrite E1, E2, E3.
+    assert (E45 : (nPA =? 1) && (S nE =? n) = false).
+    { destruct (Nat.eqb_spec nPA 1), (Nat.eqb_spec (S nE) n); simpl; auto. tauto. }
+    now rewrite E45.
+Qed.
+
+Lemma Ord_items_Forall v l : Forall (GoodItem v) l -> Forall (fun x => Ord (ic x) (ib x)) l.
+Proof. intros H. eapply Forall_impl; [|exact H]. intros x Hx. apply Hx. Qed.
+
+(* o is a frontier of the Q-node on the children, read forwards or backwards *)
+Lemma frontier_Q v T1 (d : bool) : Forall (GoodItem v) T1 ->
+  Ord (Node KQ (map ic T1)) (flat_map ib (if d then T1 else rev T1)).
+Proof.
+  intros HG. apply Ord_Q. destruct d; [left|right].
+  - apply OrdL_items. now apply (Ord_items_Forall v).
+  - rewrite <- map_rev. apply OrdL_items. apply (Ord_items_Forall v). now apply Forall_rev.
+Qed.
+
+Lemma OrdL_app2 a b oa ob : OrdL a oa -> OrdL b ob -> OrdL (a ++ b) (oa ++ ob).
+Proof. intros H1 H2. apply OrdL_app. eauto. Qed.
+
+(* the children produced by the scan represent the frontier *)
+Lemma stored_frontier v d T1 E1 Lp A Rp E3 : Forall (GoodItem v) T1 -> Stored d v T1 E1 Lp A Rp E3 ->
+  Ord (Node KQ (map ic E1 ++ match Lp with [a] => simplify v true (ic a) | _ => [] end ++ map ic A ++
+                match Rp with [b] => simplify v false (reverse (ic b)) | _ => [] end ++ map ic E3))
+      (flat_map ib (if d then T1 else rev T1)).
+Proof.
+  intros HG (-> & HE1 & HE3 & HA & HL & HR).
+  assert (HGs : Forall (GoodItem v) E1 /\ Forall (GoodItem v) Lp /\ Forall (GoodItem v) A /\ Forall (GoodItem v) Rp /\ Forall (GoodItem v) E3).
+  { apply Forall_app in HG. destruct HG as [G1 G]. apply Forall_app in G. destruct G as [G2 G].
+    apply Forall_app in G. destruct G as [G3 G]. apply Forall_app in G. destruct G as [G4 G5]. auto. }
+  destruct HGs as (G1 & G2 & G3 & G4 & G5).
+  set (La := match Lp with [a] => simplify v true (ic a) | _ => [] end).
+  set (Lb := match Rp with [b] => simplify v false (reverse (ic b)) | _ => [] end).
+  apply Ord_Q. destruct d.
+  - left. rewrite !flat_map_app.
+    apply OrdL_app2; [apply OrdL_items; now apply (Ord_items_Forall v)|].
+    apply OrdL_app2.
+    { unfold La. destruct HL as [->|(a & -> & Ha & Hs)]; [now apply OrdL_nil|]. simpl in Hs. simpl flat_map. rewrite app_nil_r.
+      inversion G2; subst. now apply (PA_pieces v a). }
+    apply OrdL_app2; [apply OrdL_items; now apply (Ord_items_Forall v)|].
+    apply OrdL_app2; [|apply OrdL_items; now apply (Ord_items_Forall v)].
+    unfold Lb. destruct HR as [->|(b & -> & Hb & Hs)]; [now apply OrdL_nil|]. simpl in Hs. simpl flat_map. rewrite app_nil_r.
+    inversion G4; subst. now apply (PA_pieces_rev v b).
+  - right. rewrite !rev_app_distr, <- !app_assoc, !flat_map_app, <- !map_rev.
+    apply OrdL_app2; [apply OrdL_items, (Ord_items_Forall v); now apply Forall_rev|].
+    apply OrdL_app2.
+    { unfold Lb. destruct HR as [->|(b & -> & Hb & Hs)]; [now apply OrdL_nil|]. simpl in Hs. simpl flat_map. rewrite app_nil_r.
+      inversion G4; subst. now apply (PA_pieces_rev v b). }
+    apply OrdL_app2; [apply OrdL_items, (Ord_items_Forall v); now apply Forall_rev|].
+    apply OrdL_app2; [|apply OrdL_items, (Ord_items_Forall v); now apply Forall_rev].
+    unfold La. destruct HL as [->|(a & -> & Ha & Hs)]; [now apply OrdL_nil|]. simpl in Hs. simpl flat_map. rewrite app_nil_r.
+    inversion G2; subst. now apply (PA_pieces v a).
+Qed.
